@@ -685,19 +685,41 @@ func loopVarSignature(fr *Frame) string {
 // firstIterRefuted re-generates the function's conditions in the under-approximating mode (loops
 // entered without havoc, paths cut at back edges) and asks whether the obligation of the same name
 // is refuted there.
+// underApproxCache: the under-approximating conditions of a function, generated once per check run
+// and unrolling depth.
+var underApproxCache = map[string]*FuncResult{}
+
+// underApproxBudget: the decisions on the under-approximation are an extra for changed code; one check
+// run spends at most this long on them (what is not decided in time stays UNDECIDED).
+var underApproxDeadline time.Time
+
 func firstIterRefuted(ctx *Ctx, or *OblResult, secs int) bool {
+	if underApproxDeadline.IsZero() {
+		underApproxDeadline = time.Now().Add(150 * time.Second)
+	}
+	if time.Now().After(underApproxDeadline) {
+		return false
+	}
 	ctx.firstIter = true
 	defer func() { ctx.firstIter, ctx.unroll = false, 0 }()
 	// first the paths that leave every loop before completing an iteration, then the paths through
 	// at most three copies of each loop body (unrolled, no invariant, no havoc)
 	for _, k := range []int{1, 3} {
 		ctx.unroll = k
-		fr := ctx.GenVC(or.Func.Contract)
+		ck := fmt.Sprintf("%s|%d", or.Func.FullName, k)
+		fr, cached := underApproxCache[ck]
+		if !cached {
+			fr = ctx.GenVC(or.Func.Contract)
+			underApproxCache[ck] = fr
+			if fr != nil && fr.VC != nil && fr.Err == "" {
+				useCoreTypes = fr.Contract.CoreTypes
+				fr.VC.declsCache = fr.VC.tt.Decls()
+			}
+		}
 		if fr == nil || fr.VC == nil || fr.Err != "" {
 			return false
 		}
 		useCoreTypes = fr.Contract.CoreTypes
-		fr.VC.declsCache = fr.VC.tt.Decls()
 		want := normName(or.Obl.Name)
 		for _, o := range fr.Obls {
 			if normName(o.Name) != want || o.Bound != "" {
